@@ -116,6 +116,11 @@ def build(d: Path, scn, out_name="out.nc", record_output=True, record_ibm=False,
     g = scn["grid"]
     G = roms.make_grid(g["jm"], g["im"], N=g["N"], h=g["h"], hval=80.0, mask=g["mask"], dx=DX,
                        seed=g["seed"], levels="random")
+    if g.get("metric") == "varying":
+        # curvilinear grid: the cell sizes vary smoothly (by up to about 40 %) and differently in x and y
+        jj_, ii_ = np.mgrid[0:g["jm"], 0:g["im"]].astype(float)
+        G["pm"] = 1.0 / (DX * (0.8 + 0.04 * ii_ + 0.15 * np.sin(0.9 * jj_ + g["seed"] % 7)))
+        G["pn"] = 1.0 / (DX * (0.9 + 0.03 * jj_ + 0.15 * np.cos(0.7 * ii_ + g["seed"] % 5)))
     tm = scn["time"]
     rev = tm["reverse"]
     sgn = -1 if rev else 1
@@ -148,7 +153,20 @@ def build(d: Path, scn, out_name="out.nc", record_output=True, record_ibm=False,
     # float64 (values that are not exactly representable)
     tunits = {None: None, "hours": "hours since 1990-01-01 00:00:00", "days": "days since 1948-01-01 00:00:00",
               "minutes": "minutes since 2000-01-01 00:00:00"}[f.get("tunits")]
-    fname, files = scen.write_forcing(d, G, ft, U, V, partition=part, extra=extra, time_units=tunits)
+    storage = "f8"
+    if f.get("packed"):
+        # velocity stored as 16-bit integers with a scale factor chosen so that the strongest currents saturate at
+        # the ends of the integer range.  The flow of opposite sign (vel_sign = -1) is the negated *decoded* field,
+        # written as 32-bit floats (the dtype the reader decodes packed data to).
+        U0, V0 = U / vel_sign, V / vel_sign
+        scale = float(f["packed"]) * max(float(np.abs(U0).max()), float(np.abs(V0).max()), 1e-3) / 32768.0
+        storage = ("i2full", scale)
+        if vel_sign != 1.0:
+            U = vel_sign * (np.float32(scale) * np.clip(np.round(U0 / scale), -32768, 32767).astype("i2"))
+            V = vel_sign * (np.float32(0.75 * scale) * np.clip(np.round(V0 / (0.75 * scale)), -32768, 32767).astype("i2"))
+            storage = "f4"
+    fname, files = scen.write_forcing(d, G, ft, U, V, partition=part, extra=extra, time_units=tunits,
+                                      storage=storage)
     cells = sea_cells(G, g.get("sub"))
     if not cells:
         raise ValueError("no sea cell")
